@@ -118,15 +118,22 @@ fn read_source_files(
         return Err(compile_error("no input files provided".to_string()));
     }
 
-    let mut paths = input_files.to_vec();
+    // Order and de-duplicate by file, not by spelling: `b.gom` and `./b.gom` are one file.
+    let mut paths = input_files
+        .iter()
+        .map(|path| {
+            let file = path.canonicalize().unwrap_or_else(|_| path.clone());
+            (file, path.clone())
+        })
+        .collect::<Vec<_>>();
     paths.sort();
-    paths.dedup();
+    paths.dedup_by(|later, earlier| later.0 == earlier.0);
 
     let mut files = Vec::new();
     let mut imports = HashSet::new();
     let mut source_list = Vec::new();
 
-    for path in paths {
+    for (_, path) in paths {
         let src = fs::read_to_string(&path)
             .map_err(|err| compile_error(format!("failed to read {}: {}", path.display(), err)))?;
         let ast = parse_ast_file(&path, &src)?;
